@@ -907,6 +907,10 @@ pub fn corruptions(cfg: &Value) -> Vec<Corruption> {
                 for (a, av, b, bv) in [
                     ("value", json!(true), "env", e.clone()),
                     ("value", json!(true), "env_json", e.clone()),
+                    // (with the variable unset nothing else can reject the configuration: only the collision check does)
+                    ("value", json!(true), "env_json", json!(super::c19_probe::ENV_UNSET)),
+                    ("env", json!(super::c19_probe::ENV_UNSET), "env_json", json!(super::c19_probe::ENV_UNSET)),
+                    ("value", json!(1), "default_value", json!(1)),
                     ("env", e.clone(), "env_json", e.clone()),
                     ("value", json!(true), "default_value", json!(false)),
                     ("value", json!(null), "env", json!(super::c19_probe::ENV_UNSET)),
